@@ -18,6 +18,6 @@ Extraction "model.ml"
   scan fkeep tok_eqb kind_eqb
   c_new c_with_metrics c_with_le c_with_tab c_with_filter c_set_filter c_start_sublex c_peek c_next
   c_next_if c_next_if_eq c_advance_to c_advance_up_to c_drain c_token_span c_parse_span c_cursor_pos
-  c_peek_token_span c_at_end fuel_of
+  c_peek_token_span c_peek_parse_span c_peek_cursor_pos c_is_empty_with_filter c_at_end fuel_of
   ctx_new run_trees ctx_pushed run mkstore set_met
   sd_new cd_render.
